@@ -771,6 +771,12 @@ def scale_runs(quick):
         if n <= 300:
             out.append(('recursion-depth', n, 'ff takes nn\nif nn is 0\ngive back 0\n\nput nn minus 1 into mm\ngive back 1 with ff taking mm\n\nsay ff taking %d\n' % n))
             out.append(('array-nesting', n, 'rock xs with 1\nput 0 into ii\nwhile ii is less than %d\nrock ys\nrock ys with xs\nput ys into xs\nput nothing into ys\nbuild ii up\n\nsay xs\nput xs into zs\nsay zs is xs\n' % n))
+    for n in range(0, 21):
+        lits = ''.join('%d, ' % i for i in range(n))
+        for tail_ in ('xs', 'roll xs', 'xs at 0', 'xs, xs', 'ff taking xs'):
+            out.append(('rock-list-observing-target', n, 'ff takes pp\ngive back pp\n\nrock xs with "first"\nrock xs with %s%s\nsay xs\n' % (lits, tail_) +
+                        ''.join('say xs at %d\n' % i for i in range(n + 3))))
+        out.append(('rock-subscript-with-effect', n, 'rock idx with 0, 1, 2, 3\nrock ms\nrock ms at roll idx with %s"z"\nsay idx\nsay ms\nsay ms at 0\nsay ms at 1\n' % lits))
     for n in range(1, 14):
         tgt = 'xs' + ' at 0' * n
         for st_ in ('let %s be 5', 'put 5 into %s', 'rock %s with 1, 2', 'let %s be with 1', 'listen to %s', 'turn up %s',
@@ -1399,12 +1405,14 @@ def c05(run):
     # a COMMON name: each kind of name lives in its own table of the symbol table
     import re as _re
     base_n = len(sc)
-    for mapping in (SCOPE_PROPER, SCOPE_COMMON):
+    for mapping in (SCOPE_PROPER, SCOPE_COMMON, SCOPE_UPPER):
         pat = _re.compile(r'\b(' + '|'.join(mapping) + r')\b', _re.I)
 
         def ren(mo, mapping=mapping):
             w = mo.group(0)
             t = mapping[w.lower()]
+            if mapping is SCOPE_UPPER:
+                return t            # (upper-casing these would change the name: that is the point of the family)
             return t.upper() if w.isupper() and len(w) > 1 else t
         pick = rng.sample(range(base_n), min(base_n, 1200 if run.tier == 'quick' else 15000))
         for i in pick:
@@ -1437,6 +1445,9 @@ SCOPE_PRONOUN = ['say gg', 'say hh', 'rock it with 9', 'roll it', 'put 7 into it
                  'if gg is 4\nsay 0\n', 'if hh is 2\nsay 1\n', 'ff taking hh', 'roll gg into hh', 'listen to it']
 SCOPE_PROPER = {'gg': 'Jo Anna', 'hh': 'Joan Na', 'll': 'Joa Nna', 'pp': 'Tom Sawyer', 'bb': 'Mister Crowley', 'ww': 'Doctor Feelgood', 'qq': 'Billie Jean',
                 'zz': 'J Oanna', 'ff': 'Black Sabbath', 'helper': 'Blacks Abbath', 'mm': 'Tom Saw Yer'}
+# simple names whose lower-case forms differ but whose UPPER-case forms coincide (sharp s / ss / long s, dotless i, ligature)
+SCOPE_UPPER = {'gg': 'straße', 'hh': 'strasse', 'll': 'straſse', 'pp': 'ﬁre', 'bb': 'fire', 'ww': 'ıce', 'qq': 'ice', 'zz': 'ǆem', 'ff': 'maße',
+               'helper': 'masse', 'mm': 'maſse'}
 SCOPE_COMMON = {'gg': 'the night', 'hh': 'my soul', 'll': 'your love', 'pp': 'a girl', 'bb': 'the nights', 'ww': 'my night', 'qq': 'our soul',
                 'zz': 'an angel', 'ff': 'the fire', 'helper': 'my fire', 'mm': 'the fires'}
 SCOPE_OBS = ['say gg\nsay hh', 'say ll', 'say pp', 'say bb', 'say it', 'say ww', 'say ff taking gg, hh', 'say hh taking 1', 'say HELPER taking 5']
@@ -1584,7 +1595,8 @@ def c06(run):
     check_queue_shapes(run)
     # every writing statement through a chain of 1..13 subscripts (fresh, over a number, over an array), arrays and
     # dictionaries of 8 ... 1025 entries, arrays nested 8 ... 300 deep
-    sc = [(k, src) for k, nn, src in scale_runs(run.tier == 'quick') if k in ('subscript-depth', 'array-elements', 'array-nesting', 'dictionary-keys')]
+    sc = [(k, src) for k, nn, src in scale_runs(run.tier == 'quick') if k in ('subscript-depth', 'array-elements', 'array-nesting', 'dictionary-keys',
+                                                                              'rock-list-observing-target', 'rock-subscript-with-effect')]
     screqs = [run_req(src, 'line\n') for _, src in sc]
     scm, scim = run.tie(screqs, proj=proj_run, functional=True, desc=lambda i: {'program': sc[i][1], 'section': 'scale:' + sc[i][0]})
     for (k, src), r in zip(sc, scim):
